@@ -25,7 +25,28 @@ var loaderNames = []string{"manifest", "json", "entries", "entryhash"}
 // storedLog: replica 0 of an arbitrary bounded history, all of whose entries were written to the shared store.
 func storedLog() (*hist, *ipfslog.IPFSLog) {
 	vx.ExploreOff()
-	h := newHist(histParams())
+	cfg := histParams()
+	if depth := vx.Param("FORK", 0); depth > 0 {
+		// a fixed wide shape instead of a symbolic history: every replica appends `depth` entries on its own, then
+		// replica 0 merges them all - R entries share each clock time (ties of more than two at every level)
+		cfg.K = 0
+		h := newHist(cfg)
+		for d := 0; d < depth; d++ {
+			for r := 0; r < cfg.R; r++ {
+				if _, err := h.logs[r].Append(ctx, []byte{'p', byte('0' + h.nAppend)}, nil); err != nil {
+					panic(err)
+				}
+				h.nAppend++
+			}
+		}
+		for r := 1; r < cfg.R; r++ {
+			if _, err := h.logs[0].Join(h.logs[r], -1); err != nil {
+				panic(err)
+			}
+		}
+		return h, h.logs[0]
+	}
+	h := newHist(cfg)
 	h.run(nil, nil)
 	return h, h.logs[0]
 }
